@@ -10,5 +10,7 @@ for f in tla/*.tla; do
 done
 /venv/bin/python -m compileall -q harness checks tools >/dev/null || rc=1
 mkdir -p evidence replays .work
+# the mesh catalogue is generated and proved well-formed by TLC; regenerate it if the modules changed
+/venv/bin/python -c "import sys; sys.path.insert(0, '/verif'); from harness import catalog; d = catalog.load(); print('catalogue entries:', len(d['entries']))" || rc=1
 echo "setup done rc=$rc"
 exit $rc
